@@ -125,8 +125,18 @@ func (sc *script) choose(op *acmefake.Op, head bool, url string) string {
 		sc.pi++
 		return sc.posts[sc.pi-1]
 	}
+	// the model sent no further request.  A client that keeps retrying keeps getting the last
+	// retriable reply (until the server's per-call request budget stops it): judged by count.
+	if n := len(sc.posts); n > 0 {
+		switch sc.posts[n-1] {
+		case "badNonce", "e500", "e429":
+			return sc.posts[n-1]
+		}
+	}
 	return "e403"
 }
+
+var negStops int // replayed behaviours in which a NEGATIVE back-off value had to end the retries
 
 func TestReplay(t *testing.T) {
 	out := vutil.NewOut()
@@ -134,6 +144,7 @@ func TestReplay(t *testing.T) {
 	defer func() {
 		tw.close()
 		out.Extra["traces_written"] = tw.n
+		out.Extra["c50_negative_backoff_post_cases"] = negStops
 		if err := out.Write(); err != nil {
 			t.Fatal(err)
 		}
@@ -174,12 +185,16 @@ func replayOne(t *testing.T, out *vutil.Out, tw *traceWriter, c tcase, spec acme
 	var sc script
 	budget, phases, ip := 0, 1, 0
 	wantPosts, wantHeads, cancelAt, nb := 0, 0, 0, 0
+	stopVal, stops := time.Duration(0), 0
 	for _, e := range c.H {
 		switch e.T {
 		case "init":
 			ip = e.N
 		case "call":
 			budget, phases = e.N, e.S
+			if e.K == "neg" {
+				stopVal = -time.Second
+			}
 		case "headReply":
 			sc.heads = append(sc.heads, e.K)
 		case "postReply":
@@ -193,10 +208,16 @@ func replayOne(t *testing.T, out *vutil.Out, tw *traceWriter, c tcase, spec acme
 			if e.K == "cancel" {
 				cancelAt = nb
 			}
+			if e.K == "stop" {
+				stops++
+			}
 		}
 	}
 	want := c.Res[0]
-	key := fmt.Sprintf("%s|nurl=%v|ip=%d|b=%d|p=%d|h=%v|p=%v|c=%d", spec.Name, c.Nurl, ip, budget, phases, sc.heads, sc.posts, cancelAt)
+	key := fmt.Sprintf("%s|nurl=%v|ip=%d|b=%d|p=%d|h=%v|p=%v|c=%d|stop=%v", spec.Name, c.Nurl, ip, budget, phases, sc.heads, sc.posts, cancelAt, stopVal)
+	if stops > 0 && stopVal < 0 {
+		negStops++
+	}
 	out.Case(key)
 	var res acmefake.Result
 	var op *acmefake.Op
@@ -215,6 +236,7 @@ func replayOne(t *testing.T, out *vutil.Out, tw *traceWriter, c tcase, spec acme
 		_, ck := keys()
 		env := &acmefake.Env{CertKey: ck}
 		op = s.NewOp(spec.Name, budget, phases, cancelAt)
+		op.StopVal = stopVal
 		t0 := time.Now()
 		res = s.Run(op, func(ctx context.Context) (string, error) { return spec.Run(ctx, cl, env) })
 		elapsed = time.Since(t0)
@@ -316,6 +338,9 @@ func TestConcurrent(t *testing.T) {
 					cancelAt = 1 + rng.Intn(2)
 				}
 				op := s.NewOp(spec.Name, rng.Intn(4), spec.Phases, cancelAt)
+				if rng.Intn(2) == 0 {
+					op.StopVal = -time.Duration(1+rng.Intn(5)) * time.Second
+				}
 				desc = append(desc, spec.Name)
 				wg.Add(1)
 				go func() {
@@ -385,6 +410,9 @@ func TestLong(t *testing.T) {
 					cancelAt = 1 + rng.Intn(3)
 				}
 				op := s.NewOp(spec.Name, rng.Intn(5), spec.Phases, cancelAt)
+				if rng.Intn(2) == 0 {
+					op.StopVal = -time.Duration(1+rng.Intn(5)) * time.Second
+				}
 				names = append(names, spec.Name)
 				res := s.Run(op, func(ctx context.Context) (string, error) { return spec.Run(ctx, cl, env) })
 				if !op.CancelTime.IsZero() && !op.Returned.Equal(op.CancelTime) {
@@ -493,5 +521,158 @@ func TestDefaultBackoff(t *testing.T) {
 			}
 			out.Sample(d)
 		})
+	}
+}
+
+// TestGetBackoff: the unsigned GET retry loop (Client.get, used by Discover) with a scripted
+// RetryBackoff whose stop value is zero or NEGATIVE: requests = retries taken + 1, judged by count;
+// the caller gets the CA's error of the final reply.
+func TestGetBackoff(t *testing.T) {
+	out := vutil.NewOut()
+	negCases := 0
+	defer func() {
+		out.Extra["c50_negative_backoff_get_cases"] = negCases
+		if err := out.Write(); err != nil {
+			t.Fatal(err)
+		}
+	}()
+	for _, kind := range []string{"e500", "e429"} {
+		for budget := 0; budget <= 3; budget++ {
+			for _, stop := range []time.Duration{0, -1, -time.Second, -time.Hour} {
+				synctest.Test(t, func(t *testing.T) {
+					s := acmefake.NewServer()
+					s.DirChoose = func(n int) string { return kind } // the directory never answers 200
+					cl := newClient(s)
+					op := s.NewOp("Discover", budget, 1, 0)
+					op.StopVal = stop
+					ctx, cancel := context.WithTimeout(op.Ctx, time.Hour) // safety net only
+					defer cancel()
+					_, err := cl.Discover(ctx)
+					res := acmefake.Classify("", err)
+					key := fmt.Sprintf("Discover|%s|budget=%d|stop=%v", kind, budget, stop)
+					out.Case(key)
+					if stop < 0 {
+						negCases++
+					}
+					d := map[string]any{"reply": kind, "budget": budget, "stop_value": stop.String(), "gets": s.DirGets, "result": res}
+					if s.DirGets > acmefake.MaxRequestsPerCall {
+						out.Violation("c50-retry-unbounded", fmt.Sprintf("Discover sent more than %d GETs with a RetryBackoff that returns %v after %d retries (documented: negative or zero ends the retries)", acmefake.MaxRequestsPerCall, stop, budget), d)
+						t.Errorf("unbounded: %s", key)
+						return
+					}
+					if s.DirGets != budget+1 {
+						out.Violation("c50-get-count", fmt.Sprintf("Discover sent %d GETs, budget %d allows %d (stop value %v)", s.DirGets, budget, budget+1, stop), d)
+						t.Errorf("get count: %s", key)
+					}
+					if res.Class != "acmeerr" || res.Serial != s.DirGets {
+						out.Violation("c50-result-not-last-reply", fmt.Sprintf("Discover returned %s/%d (%s), expected the CA's error of reply #%d", res.Class, res.Serial, res.Err, s.DirGets), d)
+						t.Errorf("result: %s", key)
+					}
+					if len(out.Samples) < 3 && stop < 0 {
+						out.Sample(d)
+					}
+				})
+			}
+		}
+	}
+}
+
+// TestDefaultRetryAfter: RetryBackoff == nil and 429 replies with every class of Retry-After.
+// Documented: retry after Retry-After + jitter (jitter up to 1 s, at least 1 ms); a non-positive
+// back-off ends the retries with the CA's error.  Judged by request COUNT (budget) and virtual time.
+func TestDefaultRetryAfter(t *testing.T) {
+	out := vutil.NewOut()
+	defer func() {
+		if err := out.Write(); err != nil {
+			t.Fatal(err)
+		}
+	}()
+	type cl struct {
+		name   string
+		ra     func() string
+		stops  bool          // non-positive back-off: exactly one request
+		lo, hi time.Duration // otherwise: window of the gap between attempts
+	}
+	classes := []cl{
+		{"absent", func() string { return "" }, false, 0, 10 * time.Second},
+		{"posSeconds", func() string { return "2" }, false, 2 * time.Second, 3 * time.Second},
+		{"zeroSeconds", func() string { return "0" }, false, 0, time.Second},
+		{"negSeconds", func() string { return "-5" }, true, 0, 0},
+		{"futureDate", func() string { return time.Now().Add(4 * time.Second).UTC().Format(http.TimeFormat) }, false, 2 * time.Second, 5 * time.Second},
+		{"pastDate", func() string { return time.Now().Add(-time.Hour).UTC().Format(http.TimeFormat) }, true, 0, 0},
+	}
+	for _, c := range classes {
+		for _, post := range []bool{true, false} {
+			synctest.Test(t, func(t *testing.T) {
+				s := acmefake.NewServer()
+				s.RetryAfter = c.ra
+				var times []time.Time
+				const replies = 4
+				s.Choose = func(op *acmefake.Op, head bool, url string) string {
+					if head {
+						return "nonce"
+					}
+					times = append(times, time.Now())
+					if len(times) <= replies {
+						return "e429"
+					}
+					return "e403" // ends a client that is still retrying after 4 rate-limit replies
+				}
+				client := newClient(s)
+				client.RetryBackoff = nil
+				op := s.NewOp("GetOrder", 0, 1, 0)
+				ctx, cancel := context.WithTimeout(op.Ctx, 10*time.Minute)
+				defer cancel()
+				var err error
+				n := 0
+				if post {
+					if _, err = client.Discover(ctx); err != nil {
+						t.Fatal(err)
+					}
+					_, err = client.GetOrder(ctx, acmefake.Base+"/order/1")
+					n = len(times)
+				} else {
+					s.DirChoose = func(k int) string {
+						times = append(times, time.Now())
+						if k <= replies {
+							return "e429"
+						}
+						return "ok"
+					}
+					_, err = client.Discover(ctx)
+					n = s.DirGets
+				}
+				key := fmt.Sprintf("%s|post=%v", c.name, post)
+				out.Case(key)
+				d := map[string]any{"retry_after": c.name, "post": post, "requests": n, "err": fmt.Sprint(err)}
+				out.Sample(d)
+				if n > acmefake.MaxRequestsPerCall || len(s.TakeProblems()) > 0 {
+					out.Violation("c50-retry-unbounded", fmt.Sprintf("more than %d requests for one call with Retry-After class %s", acmefake.MaxRequestsPerCall, c.name), d)
+					t.Errorf("unbounded %s", key)
+					return
+				}
+				if c.stops {
+					if n != 1 {
+						out.Violation("c50-retry-after-nonpositive", fmt.Sprintf("Retry-After %s gives a negative back-off, which must end the retries: %d requests were sent", c.name, n), d)
+						t.Errorf("%s: %d requests", key, n)
+					}
+					if acmefake.Classify("", err).Class != "acmeerr" {
+						out.Violation("c50-result-not-last-reply", fmt.Sprintf("Retry-After %s: caller got %v instead of the CA's 429 error", c.name, err), d)
+						t.Errorf("%s: err %v", key, err)
+					}
+					return
+				}
+				if n != replies+1 {
+					out.Violation("c50-default-backoff-count", fmt.Sprintf("Retry-After %s: %d requests, expected %d", c.name, n, replies+1), d)
+					t.Errorf("%s: %d requests", key, n)
+				}
+				for j := 1; j < len(times) && j <= replies; j++ {
+					if gap := times[j].Sub(times[j-1]); gap <= 0 || gap < c.lo || gap > c.hi {
+						out.Violation("c50-default-backoff-delay", fmt.Sprintf("Retry-After %s: retry %d came %v after the previous attempt, documented window [%v, %v]", c.name, j, gap, c.lo, c.hi), d)
+						t.Errorf("%s gap %v", key, gap)
+					}
+				}
+			})
+		}
 	}
 }
